@@ -57,8 +57,8 @@ REST = {
          "Machine-checked theorems: every packed-pair prefilter (generic vector for all lawful V incl. SSE2/AVX2/NEON/simd128, portable, and the meta searcher's short-haystack path) returns a candidate <= the first occurrence, None only if no occurrence, and a candidate carries the pair bytes."),
  "C12": ("Lean 4 proof per building block (Two-Way fwd/rev incl. certificate for every needle, Rabin-Karp fwd/rev, Shift-Or bit-parallel invariant, packed-pair find) + exhaustive small-alphabet differential correspondence",
          "Machine-checked theorems: each public building block equals naive leftmost/rightmost search on its documented domain; constructors report unsupported inputs by None."),
- "C13": ("Lean 4 proof of step-count bounds with explicit constants (counter in the model monad ticks where hook H2 ticks; potential-function argument for Two-Way with a prefilter) + step-counter equality with the real code, adversarial families at growing sizes, hook-level work limit",
-         "Machine-checked theorem Props.C13.linear_work: there are explicit constants (A = 2079, B = 5305) such that for every configuration, prefilter setting, ranker, needle and haystack, building a finder and running find / rfind / one-shot find / rfind / a complete find_iter / rfind_iter traversal takes at most A*(haystack+needle) + B*(matches+1) steps; component bounds (is_equal n/4+2, Rabin-Karp, packed pair, dispatched memchr scanned+2, prefilters 4*consumed+1020, Two-Way with ANY prefilter state 1031*scanned+2*needle+1022 incl. the small-period case, proved unconditionally via a gap lemma). Constant obligations (MAX_LEN<=64, thresholds) are re-checked against the source on every run. Correspondence: model step counter == real counter on every op; work limit 64*(n+m)+2e6 enforced inside the real code by the hook."),
+ "C13": ("Lean 4 proof of step-count bounds with explicit constants (counter in the model monad ticks where hook H2 ticks; potential-function argument for Two-Way with a prefilter) + step-counter equality with the real code, adversarial families at growing sizes, hook-level work limit; wall-clock guard (a test) for work outside the counted steps",
+         "Machine-checked theorem Props.C13.linear_work: there are explicit constants (A = 2079, B = 5305) such that for every configuration, prefilter setting, ranker, needle and haystack, building a finder and running find / rfind / one-shot find / rfind / a complete find_iter / rfind_iter traversal takes at most A*(haystack+needle) + B*(matches+1) steps; component bounds (is_equal n/4+2, Rabin-Karp, packed pair, dispatched memchr scanned+2, prefilters 4*consumed+1020, Two-Way with ANY prefilter state 1031*scanned+2*needle+1022 incl. the small-period case, proved unconditionally via a gap lemma). Constant obligations (MAX_LEN<=64, thresholds) are re-checked against the source on every run. Correspondence: model step counter == real counter on every op; work limit 64*(n+m)+2e6 enforced inside the real code by the hook. Work done inside library routines the crate calls (memcmp behind starts_with etc.) is not a counted step and lies outside the theorem: it is only guarded by a wall-clock bound of 600 ns*(n+m)+0.2 s on megabyte adversarial inputs (test, not proof)."),
  "C14": ("Lean 4 proof (`= ok` excludes every fault kind; documented panic iff haystack < min_haystack_len; prefilter state machine total) + debug-assertion/overflow-check build of the real code",
          "Machine-checked theorems: no routine faults in its documented domain (all debug_assert!s and checked arithmetic sites of the model are discharged); the packed-pair finders panic exactly when haystack.len() < min_haystack_len; PrefilterState::is_effective is total. Two genuine defects found and fixed (F1, F2 in known_findings.json)."),
  "C15": ("Lean 4 proof over an abstract model of the ifunc cell (any schedule, relaxed loads return any value ever stored) + fresh-process barrier-released multi-threaded runs on three detection outcomes",
